@@ -120,12 +120,12 @@ impl<'a, 't> Gen<'a, 't> {
     }
     fn signed(&mut self, allow_neg: bool) -> SignedInteger {
         let v = self.magnitude();
-        let neg = allow_neg && self.t.ratio(1, 4);
+        let neg = allow_neg && self.t.ratio(1, 4) && self.g.want("C10_NEGATIVE_INTEGER");
         sint(v, neg)
     }
     fn small_signed(&mut self) -> SignedInteger {
         let v = self.t.below(100) as u128;
-        let neg = self.t.ratio(1, 5);
+        let neg = self.t.ratio(1, 5) && self.g.want("C10_NEGATIVE_INTEGER");
         sint(v, neg)
     }
     fn real_value(&mut self) -> f64 {
@@ -146,7 +146,11 @@ impl<'a, 't> Gen<'a, 't> {
         }
         let exp: i32 = if self.t.ratio(1, 4) { self.t.below(41) as i32 - 20 } else { 0 };
         let s = format!("{}.{}e{}", whole, fr, exp);
-        s.parse::<f64>().unwrap()
+        let v = s.parse::<f64>().unwrap();
+        if !format!("{}", v).contains('.') && !self.g.want("C10_REAL_WITHOUT_FRACTION_DIGITS") {
+            return (whole % 100000) as f64 + 0.5;
+        }
+        v
     }
     fn chars(&mut self) -> Vec<char> {
         let n = self.t.count(0, 8);
@@ -185,7 +189,7 @@ impl<'a, 't> Gen<'a, 't> {
             }
             6 => {
                 // sub-millisecond precision
-                if self.g.want("DURATION_SUB_MS") {
+                if self.g.want("DURATION_SUB_MS") && self.g.want("C10_DURATION_SUB_MILLISECOND") {
                     self.t.u32() as i128 * 1000
                 } else {
                     self.t.below(1000) as i128 * 1_000_000
@@ -218,7 +222,7 @@ impl<'a, 't> Gen<'a, 't> {
         let h = if self.t.flag() { self.t.below(24) as u8 } else { h };
         let m = self.t.below(60) as u8;
         let s = self.t.below(60) as u8;
-        if self.t.ratio(1, 4) && self.g.want("TOD_FRACTION") {
+        if self.t.ratio(1, 4) && self.g.want("TOD_FRACTION") && self.g.want("C10_TOD_FRACTION") {
             let ms = self.t.below(1000) as u32;
             Time::from_hms_micro(h, m, s, ms * 1000).unwrap()
         } else {
@@ -229,7 +233,7 @@ impl<'a, 't> Gen<'a, 't> {
     pub fn constant(&mut self, in_expr: bool) -> ConstantKind {
         match self.t.below(12) {
             0 | 1 | 2 => {
-                let data_type = if self.t.ratio(1, 4) { Some(self.t.pick(&INT_TYPES).clone()) } else { None };
+                let data_type = if self.t.ratio(1, 4) && self.g.want("C10_TYPED_INTEGER_LITERAL") { Some(self.t.pick(&INT_TYPES).clone()) } else { None };
                 let allow_neg = !in_expr || data_type.is_some();
                 ConstantKind::IntegerLiteral(IntegerLiteral { value: self.signed(allow_neg), data_type })
             }
@@ -291,7 +295,7 @@ impl<'a, 't> Gen<'a, 't> {
 
     // ---------------------------------------------------------- type pieces
     fn enum_value(&mut self) -> EnumeratedValue {
-        let type_name = if self.t.ratio(1, 5) { Some(self.type_ref()) } else { None };
+        let type_name = if self.t.ratio(1, 5) && self.g.want("C10_ENUM_VALUE_TYPE_PREFIX") { Some(self.type_ref()) } else { None };
         EnumeratedValue { type_name, value: self.name() }
     }
     fn enum_values(&mut self) -> Vec<EnumeratedValue> {
@@ -335,6 +339,9 @@ impl<'a, 't> Gen<'a, 't> {
         }
     }
     fn array_init(&mut self) -> Vec<ArrayInitialElementKind> {
+        if !self.g.want("C10_ARRAY_INITIAL_VALUES") {
+            return vec![];
+        }
         let n = 1 + self.t.count(0, 4);
         (0..n).map(|_| self.array_init_elem(0)).collect()
     }
@@ -346,9 +353,9 @@ impl<'a, 't> Gen<'a, 't> {
                 let init = match self.t.below(6) {
                     0 | 1 | 2 => StructInitialValueAssignmentKind::Constant(self.constant(false)),
                     3 => StructInitialValueAssignmentKind::EnumeratedValue(self.enum_value()),
-                    4 => StructInitialValueAssignmentKind::Array(self.array_init()),
+                    4 if self.g.want("C10_ARRAY_INITIAL_VALUES") => StructInitialValueAssignmentKind::Array(self.array_init()),
                     _ => {
-                        if depth >= 2 {
+                        if depth >= 2 || !self.g.want("C10_NESTED_STRUCTURE_INITIALIZER") {
                             StructInitialValueAssignmentKind::Constant(self.constant(false))
                         } else {
                             StructInitialValueAssignmentKind::Structure(self.struct_init(depth + 1))
@@ -483,7 +490,7 @@ impl<'a, 't> Gen<'a, 't> {
                 spec: self.subrange_spec(),
                 default: if self.t.flag() { Some(self.small_signed()) } else { None },
             }),
-            3 => {
+            3 if self.g.want("C10_SIMPLE_TYPE_DECLARATION") => {
                 let type_name = self.elem_or_ref(true);
                 DataTypeDeclarationKind::Simple(SimpleDeclaration {
                     type_name: name,
@@ -505,7 +512,7 @@ impl<'a, 't> Gen<'a, 't> {
                     .collect();
                 DataTypeDeclarationKind::Structure(StructureDeclaration { type_name: name, elements })
             }
-            6 => DataTypeDeclarationKind::StructureInitialization(StructureInitializationDeclaration {
+            6 if self.g.want("C10_STRUCT_INITIALIZATION_TYPE_DECLARATION") => DataTypeDeclarationKind::StructureInitialization(StructureInitializationDeclaration {
                 type_name: name,
                 elements_init: self.struct_init(0),
             }),
@@ -556,7 +563,7 @@ impl<'a, 't> Gen<'a, 't> {
     fn params(&mut self, depth: usize) -> Vec<ParamAssignmentKind> {
         let n = self.t.count(0, 3);
         (0..n)
-            .map(|_| match self.t.below(4) {
+            .map(|_| match if self.g.want("C10_NAMED_AND_OUTPUT_PARAMETERS") { self.t.below(4) } else { self.t.below(4) & 1 } {
                 0 | 1 => ParamAssignmentKind::positional(self.expr(depth + 1)),
                 2 => ParamAssignmentKind::NamedInput(NamedInput { name: self.name(), expr: self.expr(depth + 1) }),
                 _ => {
@@ -620,13 +627,18 @@ impl<'a, 't> Gen<'a, 't> {
             }
             _ => {
                 let op = if self.t.flag() { UnaryOp::Not } else { UnaryOp::Neg };
-                ExprKind::unary(op, self.expr(depth + 1))
+                let term = self.expr(depth + 1);
+                if matches!(term, ExprKind::UnaryOp(_)) && !self.g.want("C10_UNARY_OPERATOR_ON_UNARY_EXPRESSION") {
+                    return term;
+                }
+                ExprKind::unary(op, term)
             }
         }
     }
 
     // ----------------------------------------------------------- statements
     pub fn stmts(&mut self, depth: usize, min: usize) -> Vec<StmtKind> {
+        let min = if min == 0 && depth > 0 && !self.g.want("C10_EMPTY_STATEMENT_LIST") { 1 } else { min };
         let n = min + self.t.count(0, 3);
         let mut v = Vec::new();
         for _ in 0..n {
@@ -640,6 +652,11 @@ impl<'a, 't> Gen<'a, 't> {
     }
     fn stmt(&mut self, depth: usize) -> StmtKind {
         let k = if depth >= self.max_depth || self.stmt_budget == 0 { self.t.below(4) } else { self.t.below(11) };
+        let k = match k {
+            2 if !self.g.want("C10_FB_CALL_STATEMENT") => 0,
+            3 if !self.g.want("C10_RETURN_EXIT_STATEMENTS") => 1,
+            x => x,
+        };
         match k {
             0 | 1 => StmtKind::assignment(self.variable_any(0), self.expr(0)),
             2 => StmtKind::FbCall(FbCall { var_name: self.name(), params: self.params(0), position: SourceSpan::default() }),
@@ -663,7 +680,7 @@ impl<'a, 't> Gen<'a, 't> {
                 let n = self.t.count(0, 3);
                 let statement_groups = (0..n)
                     .map(|_| {
-                        let k = 1 + self.t.count(0, 2);
+                        let k = if self.g.want("C10_CASE_GROUP_WITH_SEVERAL_SELECTORS") { 1 + self.t.count(0, 2) } else { 1 };
                         let selectors = (0..k)
                             .map(|_| match self.t.below(3) {
                                 0 => CaseSelectionKind::SignedInteger(self.small_signed()),
@@ -754,7 +771,7 @@ impl<'a, 't> Gen<'a, 't> {
                 }
                 5 => {
                     // edge inputs (function blocks only: a PROGRAM has no place for them in the AST)
-                    if !in_program {
+                    if !in_program && self.g.want("C10_FUNCTION_BLOCK_EDGE_INPUTS") {
                         let q = self.qualifier(&[Retain, NonRetain]);
                         let n = 1 + self.t.count(0, 2);
                         for _ in 0..n {
@@ -864,7 +881,7 @@ impl<'a, 't> Gen<'a, 't> {
         }
     }
     fn assoc(&mut self) -> ActionAssociation {
-        let qualifier = match self.t.below(13) {
+        let qualifier = match if self.g.want("C10_TIMED_ACTION_QUALIFIERS") { self.t.below(13) } else { self.t.below(7) } {
             0 => None,
             1 => Some(ActionQualifier::N),
             2 => Some(ActionQualifier::R),
@@ -888,7 +905,7 @@ impl<'a, 't> Gen<'a, 't> {
         ActionAssociation { name: self.name(), qualifier, indicators }
     }
     fn steps(&mut self) -> Vec<Id> {
-        match self.t.below(6) {
+        match if self.g.want("C10_TRANSITION_STEP_LISTS") { self.t.below(6) } else { 0 } {
             0 | 1 | 2 | 3 => vec![self.name()],
             4 => vec![self.name(), self.name()],
             _ => {
@@ -905,7 +922,7 @@ impl<'a, 't> Gen<'a, 't> {
         let nn = 1 + self.t.count(0, 1);
         let networks = (0..nn)
             .map(|_| {
-                let na = if self.t.ratio(1, 3) && self.g.want("INITIAL_STEP_ACTION_ASSOCIATIONS") { 1 + self.t.count(0, 2) } else { 0 };
+                let na = if self.t.ratio(1, 3) && self.g.want("INITIAL_STEP_ACTION_ASSOCIATIONS") && self.g.want("C10_INITIAL_STEP_ACTION_ASSOCIATIONS") { 1 + self.t.count(0, 2) } else { 0 };
                 let initial_step = Step { name: self.fresh(), action_associations: (0..na).map(|_| self.assoc()).collect() };
                 let ne = self.t.count(0, 5);
                 let elements = (0..ne)
@@ -915,8 +932,8 @@ impl<'a, 't> Gen<'a, 't> {
                             ElementKind::Step(Step { name: self.fresh(), action_associations: (0..na).map(|_| self.assoc()).collect() })
                         }
                         1 => ElementKind::Transition(Transition {
-                            name: if self.t.ratio(1, 3) { Some(self.fresh()) } else { None },
-                            priority: if self.t.ratio(1, 3) { Some(self.t.below(100) as u32) } else { None },
+                            name: if self.t.ratio(1, 3) && self.g.want("C10_TRANSITION_NAME_AND_PRIORITY") { Some(self.fresh()) } else { None },
+                            priority: if self.t.ratio(1, 3) && self.g.want("C10_TRANSITION_NAME_AND_PRIORITY") { Some(self.t.below(100) as u32) } else { None },
                             from: self.steps(),
                             to: self.steps(),
                             condition: self.expr(1),
@@ -948,7 +965,7 @@ impl<'a, 't> Gen<'a, 't> {
 
     // -------------------------------------------------------- configuration
     fn global_vars(&mut self) -> Vec<VarDecl> {
-        if self.t.ratio(1, 2) {
+        if self.t.ratio(1, 2) || !self.g.want("C10_CONFIGURATION_AND_RESOURCE_GLOBALS") {
             return vec![];
         }
         let q = self.qualifier(&[DeclarationQualifier::Constant, DeclarationQualifier::Retain]);
@@ -971,7 +988,7 @@ impl<'a, 't> Gen<'a, 't> {
             .map(|_| TaskConfiguration {
                 name: self.fresh(),
                 priority: self.t.below(100) as u32,
-                interval: if self.t.flag() { Some(self.duration()) } else { None },
+                interval: if self.t.flag() && self.g.want("C10_TASK_INTERVAL") { Some(self.duration()) } else { None },
             })
             .collect();
         let np = 1 + self.t.count(0, 2);
@@ -986,7 +1003,7 @@ impl<'a, 't> Gen<'a, 't> {
                 let mut fb_tasks = vec![];
                 let mut sources = vec![];
                 let mut sinks = vec![];
-                if self.t.ratio(1, 4) && self.g.want("PROGRAM_CONFIGURATION_ELEMENTS") {
+                if self.t.ratio(1, 4) && self.g.want("PROGRAM_CONFIGURATION_ELEMENTS") && self.g.want("C10_PROGRAM_CONFIGURATION_ELEMENTS") {
                     let n = 1 + self.t.count(0, 2);
                     for _ in 0..n {
                         match self.t.below(3) {
@@ -1020,7 +1037,7 @@ impl<'a, 't> Gen<'a, 't> {
         let mut fb_inits = vec![];
         let mut located_var_inits = vec![];
         if self.t.ratio(1, 3) {
-            let n = 1 + self.t.count(0, 2);
+            let n = if self.g.want("C10_SEVERAL_VAR_CONFIG_ENTRIES") { 1 + self.t.count(0, 2) } else { 1 };
             for _ in 0..n {
                 let k = 1 + self.t.count(0, 2);
                 let fb_path: Vec<Id> = (0..k).map(|_| self.name()).collect();
@@ -1094,7 +1111,7 @@ impl<'a, 't> Gen<'a, 't> {
                     return_type: self.elem_or_ref(true),
                     variables,
                     edge_variables,
-                    body: self.stmts(0, 0),
+                    body: if self.g.want("C10_EMPTY_STATEMENT_LIST") { self.stmts(0, 0) } else { self.stmts(0, 1) },
                 })
             }
             _ => LibraryElementKind::ConfigurationDeclaration(self.configuration()),
